@@ -15,7 +15,7 @@ case $variant in
   c2) cc=clang; flags="-O2 -g -DMYTH_VERIF" ;;
   n0) cc=gcc; flags="-O0 -g" ;;
 esac
-hs=$( (cat $VERIF/harness/*.c $VERIF/harness/*.h $VERIF/harness/*.S 2>/dev/null; cat $out/.hash) | sha1sum | cut -c1-16)
+hs=$( (cat $VERIF/harness/*.c $VERIF/harness/*.cc $VERIF/harness/*.h $VERIF/harness/*.S $REPO/src/mtbb/*.h 2>/dev/null; cat $out/.hash) | sha1sum | cut -c1-16)
 if [ -f $out/.runner_hash ] && [ "$(cat $out/.runner_hash)" = "$hs" ] && [ -x $out/runner ]; then exit 0; fi
 srcs="runner.c runner_lib.c mvsched.c ledger.c scenarios.c $(cd $VERIF/harness && ls p_*.c)"
 objs=""
@@ -28,8 +28,14 @@ for s in $srcs; do
   objs="$objs $out/h/${s%.c}.o"
 done
 for p in $pids; do wait $p || { echo "runner compile failed ($variant)" >&2; exit 2; }; done
+cxx=g++; case $cc in clang) cxx=clang++ ;; esac
+for s in $(cd $VERIF/harness && ls *.cc 2>/dev/null); do
+  $cxx -c -std=gnu++14 $flags -D_GNU_SOURCE -DHAVE_CONFIG_H -I$REPO/include -I$REPO/src -I$VERIF/harness -DMYTH_WRAP=MYTH_WRAP_VANILLA -w \
+     $VERIF/harness/$s -o $out/h/${s%.cc}.o || { echo "runner compile failed ($variant, $s)" >&2; exit 2; }
+  objs="$objs $out/h/${s%.cc}.o"
+done
 if ls $VERIF/harness/*.S >/dev/null 2>&1; then
   for s in $VERIF/harness/*.S; do b=$(basename $s .S); $cc -c $s -o $out/h/$b.o; objs="$objs $out/h/$b.o"; done
 fi
-$cc $flags -o $out/runner $objs $out/libmyth.a -lpthread -ldl -lrt
+$cxx $flags -o $out/runner $objs $out/libmyth.a -lpthread -ldl -lrt
 echo "$hs" > $out/.runner_hash
